@@ -211,4 +211,23 @@ def arrayPartition (op : AggOp) (maxIndex : Nat) (rows : List (Nat × Int)) : Op
   let sel ← existsOp (List.replicate (maxIndex + 1) 0) (rows.map (·.1))
   pure (nonzeroIndices sel, compact acc sel)
 
+
+/-- CompactNullable: data and presence are compacted together. -/
+def compactNullable (data : List Int) (present : List Bool) (select : List Nat) : List Int × List Bool :=
+  (compact data select, compact present select)
+
+/-- FuseNullsI64: absent ↦ `I64_NULL = i64::MAX`. -/
+def fuseNulls : List Int → List Bool → List Int
+  | a :: as, p :: ps => (if p then a else I64_MAX) :: fuseNulls as ps
+  | _, _ => []
+
+/-- The partial result of one partition on the array path for a NULLABLE integer input:
+    AggregateNullable, Exists, NonzeroIndices, CompactNullable, FuseNulls. -/
+def arrayPartitionNullable (op : AggOp) (maxIndex : Nat) (rows : List (Nat × Option Int)) :
+    Option (List Nat × List Int) := do
+  let (acc, pres) ← accumulateNullable (aggStep op) (freshAcc maxIndex (aggUnit op), List.replicate (maxIndex + 1) false) rows
+  let sel ← existsOp (List.replicate (maxIndex + 1) 0) (rows.map (·.1))
+  let (d, p) := compactNullable acc pres sel
+  pure (nonzeroIndices sel, fuseNulls d p)
+
 end LM.Group
